@@ -730,7 +730,7 @@ func (g *c8gen) free(zone byte, depth int, kind byte) *c8jv {
 		long := false
 		if depth >= 6 {
 			n = 0
-		} else if g.big > 0 && r.IntN(12) == 0 {
+		} else if g.big > 0 && r.IntN(30) == 0 {
 			g.big--
 			if r.IntN(2) == 0 {
 				n = 60 + r.IntN(14) // straddles the 64-name switch
@@ -919,7 +919,7 @@ func (g *c8gen) typed(sh *c8shape, depth int) *c8jv {
 			nu = 2
 		}
 		small := false
-		if g.big > 0 && depth <= 3 && r.IntN(10) == 0 {
+		if g.big > 0 && depth <= 3 && r.IntN(25) == 0 {
 			g.big--
 			nu, small = 62+r.IntN(10), true // unknown names alone push the struct's namespace into map mode
 		}
@@ -2587,11 +2587,11 @@ func c8corrNamespace(c *Ctx, or *Oracle, r *rand.Rand, n int) {
 		rmOneIn := 8
 		switch profile {
 		case 1: // around the 64-name switch: the 66th successful insert attempt flips the mode
-			nops, nameLen, pool, rmOneIn = 62+r.IntN(12), 2, 400, 40
+			nops, nameLen, pool, rmOneIn = 63+r.IntN(12), 2, 5000, 60
 		case 2: // around the 1024-byte switch
 			nops, nameLen, pool, rmOneIn = 8+r.IntN(8), 90+r.IntN(30), 40, 20
 		case 3:
-			nops, nameLen, pool = 70+r.IntN(60), 1+r.IntN(20), 90
+			nops, nameLen, pool = 70+r.IntN(60), 1+r.IntN(20), 60+r.IntN(300)
 		}
 		sawMap := false
 		for i := 0; i < nops; i++ {
